@@ -77,6 +77,11 @@ def make_transform(cap, nobs=0):
             out = random.Random(yata_pipe._h(seed, "snapshot-cap", cap)).sample(out, cap)
             out.sort()
         res = [weave(bid, ap, seed, ix) for ix, (bid, ap) in enumerate(out)]
+        for ix, x in enumerate(res):
+            if ix % 3 == 2:
+                # every third history: texts mix in characters outside the BMP (surrogate pairs; cfg `wide` of the executor), so
+                # that a snapshot cuts blocks holding characters of both widths
+                x["cfg"]["wide"] = True
         # observer family: the full histories (every delivery order to observer 8), snapshots of the OBSERVER
         nt = [s for s in scheds if _out_of_order(_hist(s["steps"]))] if nobs else []
         if len(nt) > nobs:
@@ -299,7 +304,7 @@ def check(prop, tier):
     for s in r["samples"][:1]:
         ev.sample(s)
     for ix, gc_off, nb, ops in plan["random"]:
-        r = yata_pipe.run_random(ix, tier, wd, engine=ENGINE, ext=["snapshot"], gc_off=gc_off, trace=TRACE, behaviours=nb, ops=ops)
+        r = yata_pipe.run_random(ix, tier, wd, engine=ENGINE, ext=["snapshot"], gc_off=gc_off, trace=TRACE, behaviours=nb, ops=ops, wide=3)
         results.append(r)
         ev.add_v(r["group"], r["merged"], r["nontrivial"], r["v_wall"])
     ev.cov["rule"] = ("behaviours = distinct author phases of the TLC-enumerated histories (2 authors, <= 3 operations, thorough: 4; text / "
